@@ -385,4 +385,263 @@ theorem wpDrain_noPanic (hg : Generated.C13.rpcStringLengthGuard = true) (kv : B
     | none => rfl
     | some ev => exact wpDrain_noPanic hg kv f (wpNext it') (ev :: acc) (wpNext_inv it' hi')
 
+/-! ### termination of the drain loop
+
+No decoder has a fuel parameter (`NoFuel`); a delivered event consumed at least the 8 bytes of its timestamp
+(`unmarshalLogEvent_ge`), so the number of iterations is bounded by the bytes left in the buffer; independently, every `Get`
+that is not served from the cache increments `cur`, so it is also bounded by the (client-controlled) count field. -/
+
+def NoFuel (d : Dec α) : Prop := ∀ b, (d b).isOutOfFuel = false
+
+theorem next_noFuel {d : Dec α} {k : Nat → α → Outcome β} {buf : Bytes} {nn : Nat}
+    (hd : NoFuel d) (hk : ∀ n a, (k n a).isOutOfFuel = false) : (Dec.next nn buf d k).isOutOfFuel = false := by
+  unfold Dec.next sliceFrom
+  split
+  · rw [bind_ok]
+    have := hd (buf.drop nn)
+    cases hdb : d (buf.drop nn) with
+    | ok p => rw [bind_ok]; exact hk _ _
+    | err => rfl
+    | panic w => rfl
+    | outOfFuel => rw [hdb] at this; cases this
+  · rfl
+
+theorem noFuel_u64 : NoFuel unmarshalUint64 := by
+  intro b; unfold unmarshalUint64; split <;> rfl
+
+theorem noFuel_bytes : NoFuel unmarshalBytes := by
+  intro b
+  unfold unmarshalBytes
+  have := uvarintGo_noFuel b 0 0 0
+  unfold unmarshalUint
+  cases hu : uvarintGo b 0 0 0 with
+  | ok p =>
+    rw [bind_ok]
+    simp only []
+    split
+    · rfl
+    · unfold slice
+      split
+      · rfl
+      · rfl
+  | err => rfl
+  | panic w => rfl
+  | outOfFuel => rw [hu] at this; cases this
+
+theorem noFuel_rpcString (g : Bool) : NoFuel (rpcStringG g) := by
+  intro b
+  unfold rpcStringG
+  split
+  · split
+    · rfl
+    · exact noFuel_bytes b
+  · exact noFuel_bytes b
+
+theorem noFuel_logEvent : NoFuel unmarshalLogEvent := by
+  intro b
+  unfold unmarshalLogEvent
+  refine next_noFuel noFuel_u64 ?_
+  intro _ _
+  refine next_noFuel (noFuel_rpcString _) ?_
+  intro _ _
+  refine next_noFuel (noFuel_rpcString _) ?_
+  intro _ _
+  refine next_noFuel (noFuel_rpcString _) ?_
+  intro _ _
+  rfl
+
+/-- a decoded api event consumed at least its 8-byte timestamp: no zero-byte events -/
+theorem unmarshalLogEvent_ge (b : Bytes) (n : Nat) (e : ApiEvent) (h : unmarshalLogEvent b = .ok (n, e)) : 8 ≤ n := by
+  unfold unmarshalLogEvent at h
+  obtain ⟨n1, ts, hd1, _, h⟩ := next_eq_ok h
+  obtain ⟨n2, _, _, _, h⟩ := next_eq_ok h
+  obtain ⟨n3, _, _, _, h⟩ := next_eq_ok h
+  obtain ⟨n4, _, _, _, h⟩ := next_eq_ok h
+  cases h
+  unfold unmarshalUint64 at hd1
+  split at hd1
+  · cases hd1
+  · cases hd1; omega
+
+/-- a byte count a decoder returns with a value lies inside the slice it was given — for every input (no `Safe`) -/
+def CountLe (d : Dec α) : Prop := ∀ b n x, d b = .ok (n, x) → n ≤ b.length
+
+theorem countLe_u64 : CountLe unmarshalUint64 := by
+  intro b n x h; unfold unmarshalUint64 at h
+  split at h
+  · cases h
+  · cases h; omega
+
+theorem countLe_bytes : CountLe unmarshalBytes := by
+  intro b m x hm
+  unfold unmarshalBytes at hm
+  obtain ⟨p, hp, hm⟩ := bind_eq_ok hm
+  simp only [] at hm
+  split at hm
+  · cases hm
+  · obtain ⟨r, hr, hm⟩ := bind_eq_ok hm
+    have h1 := congrArg Prod.fst (Outcome.ok.inj hm)
+    simp only [] at h1
+    rw [← h1]
+    unfold slice at hr
+    split at hr
+    · rename_i hc; omega
+    · cases hr
+
+theorem countLe_rpcString (g : Bool) : CountLe (rpcStringG g) := by
+  intro b m x h
+  unfold rpcStringG at h
+  split at h
+  · split at h
+    · cases h
+    · exact countLe_bytes _ _ _ h
+  · exact countLe_bytes _ _ _ h
+
+theorem countLe_logEvent : CountLe unmarshalLogEvent := by
+  intro b n e h
+  unfold unmarshalLogEvent at h
+  obtain ⟨n1, _, hd1, l1, h⟩ := next_eq_ok h
+  obtain ⟨n2, _, hd2, l2, h⟩ := next_eq_ok h
+  obtain ⟨n3, _, hd3, l3, h⟩ := next_eq_ok h
+  obtain ⟨n4, _, hd4, l4, h⟩ := next_eq_ok h
+  cases h
+  have := countLe_rpcString _ _ _ _ hd4
+  simp only [List.length_drop] at this
+  omega
+
+theorem wpGet_noFuel (kv : Bytes → Option Bytes) (it : WpIter) : (wpGet kv it).isOutOfFuel = false := by
+  unfold wpGet
+  split
+  · rfl
+  · split
+    · rfl
+    · simp only []
+      unfold sliceFrom
+      split
+      · rw [bind_ok]
+        have := noFuel_logEvent (it.buf.drop it.pos)
+        cases hd : unmarshalLogEvent (it.buf.drop it.pos) with
+        | ok p => rfl
+        | err => rfl
+        | panic w => rfl
+        | outOfFuel => rw [hd] at this; cases this
+      · rfl
+
+/-- one `Get`: either the batch ends, or an event is delivered and — unless it came from the cache — at least 8 more bytes
+of the buffer are behind the position and `cur` has advanced -/
+theorem wpGet_progress (kv : Bytes → Option Bytes) (it it' : WpIter) (e : Event) (h : wpGet kv it = .ok (it', some e)) :
+    it'.buf = it.buf ∧ it'.recs = it.recs ∧
+    ((it.read = true ∧ it'.pos = it.pos ∧ it'.cur = it.cur) ∨
+     (it.read = false ∧ it.pos + 8 ≤ it'.pos ∧ it'.pos ≤ it.buf.length ∧ it'.cur = it.cur + 1 ∧ it.cur < it.recs)) := by
+  unfold wpGet at h
+  split at h
+  · rename_i hr
+    cases h
+    exact ⟨rfl, rfl, Or.inl ⟨hr, rfl, rfl⟩⟩
+  · rename_i hnr
+    split at h
+    · cases h
+    · rename_i hcur
+      simp only [] at h
+      unfold sliceFrom at h
+      split at h
+      · rename_i hpos
+        rw [bind_ok] at h
+        split at h
+        · rename_i n le hd
+          cases h
+          have h8 := unmarshalLogEvent_ge _ n le hd
+          refine ⟨rfl, rfl, Or.inr ⟨by simpa using hnr, by simp only []; omega, ?_, rfl, by omega⟩⟩
+          simp only []
+          have hle := countLe_logEvent _ n le hd
+          simp only [List.length_drop] at hle
+          omega
+        · cases h
+        · cases h
+        · cases h
+      · cases h
+
+/-- **the drain loop ends within `(bytes left) + 2` iterations**, whatever the count field says -/
+theorem wpDrain_terminates_buf (kv : Bytes → Option Bytes) :
+    ∀ (fuel : Nat) (it : WpIter) (acc : List Event), it.pos ≤ it.buf.length →
+      it.buf.length - it.pos + (if it.read then 1 else 0) + 1 ≤ fuel → (wpDrain kv fuel it acc).isOutOfFuel = false
+  | 0, _, _, _, h => by omega
+  | f + 1, it, acc, hpos, hf => by
+    unfold wpDrain
+    have hnf := wpGet_noFuel kv it
+    cases hg : wpGet kv it with
+    | ok r =>
+      obtain ⟨it', e⟩ := r
+      rw [bind_ok]
+      cases e with
+      | none => rfl
+      | some ev =>
+        simp only []
+        obtain ⟨hb, _, hp⟩ := wpGet_progress kv it it' ev hg
+        apply wpDrain_terminates_buf kv f (wpNext it') (ev :: acc)
+        · show it'.pos ≤ it'.buf.length
+          rcases hp with ⟨_, hp, _⟩ | ⟨_, _, hp, _⟩
+          · rw [hp, hb]; exact hpos
+          · rw [hb]; exact hp
+        · show it'.buf.length - it'.pos + (if (wpNext it').read then 1 else 0) + 1 ≤ f
+          have hr : (wpNext it').read = false := rfl
+          rw [hr, hb]
+          rcases hp with ⟨hread, hp, _⟩ | ⟨hread, hp, hp2, _⟩
+          · rw [hread] at hf; rw [hp]; simp at hf ⊢; omega
+          · rw [hread] at hf; simp at hf ⊢; omega
+    | err => rfl
+    | panic w => rfl
+    | outOfFuel => rw [hg] at hnf; cases hnf
+
+/-- … and within `(recs − cur) + 2` iterations: the bound the model's `wpFuel` uses -/
+theorem wpDrain_terminates_cnt (kv : Bytes → Option Bytes) :
+    ∀ (fuel : Nat) (it : WpIter) (acc : List Event),
+      it.recs - it.cur + (if it.read then 1 else 0) + 1 ≤ fuel → (wpDrain kv fuel it acc).isOutOfFuel = false
+  | 0, _, _, h => by omega
+  | f + 1, it, acc, hf => by
+    unfold wpDrain
+    have hnf := wpGet_noFuel kv it
+    cases hg : wpGet kv it with
+    | ok r =>
+      obtain ⟨it', e⟩ := r
+      rw [bind_ok]
+      cases e with
+      | none => rfl
+      | some ev =>
+        simp only []
+        obtain ⟨_, hrec, hp⟩ := wpGet_progress kv it it' ev hg
+        apply wpDrain_terminates_cnt kv f (wpNext it') (ev :: acc)
+        show it'.recs - it'.cur + (if (wpNext it').read then 1 else 0) + 1 ≤ f
+        have hr : (wpNext it').read = false := rfl
+        rw [hr, hrec]
+        rcases hp with ⟨hread, _, hc⟩ | ⟨hread, _, _, hc, hlt⟩
+        · rw [hread] at hf; rw [hc]; simp at hf ⊢; omega
+        · rw [hread] at hf; rw [hc]; simp at hf ⊢; omega
+    | err => rfl
+    | panic w => rfl
+    | outOfFuel => rw [hg] at hnf; cases hnf
+
+theorem noFuel_u32 : NoFuel unmarshalUint32 := by
+  intro b; unfold unmarshalUint32; split <;> rfl
+
+theorem wpInit_noFuel (kv : Bytes → Option Bytes) (buf : Bytes) : (wpInit kv buf).isOutOfFuel = false := by
+  unfold wpInit
+  refine next_noFuel (noFuel_rpcString _) ?_
+  intro _ _
+  refine next_noFuel (noFuel_rpcString _) ?_
+  intro _ _
+  refine next_noFuel noFuel_u32 ?_
+  intro _ _
+  split <;> rfl
+
+theorem wpInit_fresh (kv : Bytes → Option Bytes) (buf : Bytes) (it : WpIter) (h : wpInit kv buf = .ok it) :
+    it.read = false ∧ it.cur = 0 := by
+  unfold wpInit at h
+  obtain ⟨_, _, _, _, h⟩ := next_eq_ok h
+  obtain ⟨_, _, _, _, h⟩ := next_eq_ok h
+  obtain ⟨_, _, _, _, h⟩ := next_eq_ok h
+  split at h
+  · cases h
+  · cases h; exact ⟨rfl, rfl⟩
+
 end Logrange.Wire
